@@ -46,7 +46,13 @@ def gen(chk):
     for _ in range(300 if not thorough else 3000):
         fam, m, edges = G.random_dag(rng, 5, 14 if not thorough else 40)
         labels = G.pick_labels(rng, m)
-        graphs.append((fam, G.label(edges, labels)))
+        es = G.label(edges, labels)
+        if rng.random() < 0.3:
+            # an edge LIST: some edges are listed again, anywhere (next to the first listing or many edges later)
+            for e in rng.sample(es, min(len(es), rng.randint(1, 3))):
+                es.insert(rng.randrange(len(es) + 1), list(e))
+            fam += '+repeats'
+        graphs.append((fam, es))
     # dense graphs: more edges than an 8-bit index can count on fewer than 256 nodes (index arrays sized by the node
     # count must not be used for edge offsets)
     for m in ([24] if not thorough else [24, 27, 30]):
@@ -101,4 +107,11 @@ def run(chk):
 
 
 def replay(chk, path):
+    rp = json.loads(open(path).read())
+    if rp.get('case', {}).get('kind') == 'scale':       # a probe compared with the closure directly: rebuilt from its seed
+        o = chk.run_impl('graph', {'cases': [rp['case']]}, timeout=900)['cases'][0]
+        print("impl now :", json.dumps(o)[:1500])
+        if o.get('n_mismatches') or 'crash' in o:
+            chk.report_violation(rp.get('signature', 'C01:replay'), {'case': rp['case'], 'impl': o}, what='replayed probe still fails')
+        return
     GC.replay(chk, path, 'C01')
